@@ -9,6 +9,10 @@ or an exhausted step budget into a finding.  This check runs the entry points on
   (e) the command line: main.main, Command.Run and Generate against an arbitrary environment."""
 import os
 
+import re
+import subprocess
+import time
+
 from common import *
 import lr
 import c05
@@ -16,6 +20,68 @@ import c09
 import c11
 import c16
 import ebnf_tokens
+
+
+HEX = ['0000', '0001', '007F', '0080', 'FFFF', '00010000', '0010FFFF', '00110000', '7FFFFFFF', '80000000', 'FFFFFFFF', 'FFFFFF00']
+
+
+def extreme_patterns():
+    out = []
+    for h in HEX:
+        out += ['\\x' + h, 'a\\x' + h + '+', '[\\x' + h + ']', '[^a\\x' + h + ']', '[a-\\x' + h + ']']
+    for lo, hi in [('0001', '0010FFFF'), ('0001', '7FFFFFFF'), ('0000', '7FFFFFFF'), ('00110000', '00110005'), ('0010FFFE', '00110001'), ('7FFFFFF0', '7FFFFFFF'),
+                   ('80000000', '80000005'), ('FFFFFFF0', 'FFFFFFFF'), ('0100', '00010000')]:
+        out += ['[\\x%s-\\x%s]' % (lo, hi), '[^\\x%s-\\x%s]' % (lo, hi)]
+    out += ['a{0,999}', 'a{999}', '(a{9}){9}', '[[:ascii:]]{50}', '\\p{L}{3}', '[^\\p{L}]']
+    return out
+
+
+def extremes(rep, sc, limit_s=120, limit_mb=8000):
+    """Auxiliary, not solver-decided: every boundary pattern through the real nfa.Parse + ToDFA natively."""
+    import resource
+    import c09
+    ov = overlay_map(c09.REL, [os.path.join(c09.HDIR, 'zz_verif_extreme_test.go')])
+    op = sc.path('overlay_extreme.json')
+    import json
+    with open(op, 'w') as f:
+        json.dump({'Replace': ov}, f)
+    binp = sc.path('extreme.test')
+    p = subprocess.run(['go', 'test', '-tags', 'verif', '-vet=off', '-overlay', op, '-c', '-o', binp, './' + c09.REL], cwd=REPO, env=go_env(),
+                       stdout=subprocess.PIPE, stderr=subprocess.STDOUT, text=True, timeout=900)
+    if p.returncode != 0 or not os.path.exists(binp):
+        rep.inconc('extreme-pattern driver does not build: ' + p.stdout[-400:])
+        return
+    pats = extreme_patterns()
+    known = {k['tag']: k for k in open_findings('C14')}
+    counts = {'ok': 0, 'rejected': 0, 'bad': 0}
+    t0 = time.time()
+
+    def limits():
+        resource.setrlimit(resource.RLIMIT_AS, (limit_mb * 1024 * 1024, limit_mb * 1024 * 1024))
+    shown = 0
+    for pat in pats:
+        env = go_env()
+        env['VERIF_PATTERN'] = pat
+        try:
+            pr = subprocess.run([binp, '-test.run', '^TestVerifExtreme$', '-test.timeout', '0'], env=env, stdout=subprocess.PIPE, stderr=subprocess.STDOUT, text=True,
+                                timeout=limit_s, preexec_fn=limits, cwd=sc.path(''))
+            out = pr.stdout
+        except subprocess.TimeoutExpired:
+            out = 'TIMEOUT after %d s' % limit_s
+        m = re.search(r'VERIF-EXTREME (OK|ERR|NIL|PANIC)(.*)', out)
+        if m and m.group(1) == 'OK':
+            counts['ok'] += 1
+        elif m and m.group(1) == 'ERR':
+            counts['rejected'] += 1
+        else:
+            counts['bad'] += 1
+            what = 'pattern %r: %s' % (pat, (m.group(0) if m else ('out of memory (limit %d MiB)' % limit_mb if 'out of memory' in out else out.strip()[-200:]))[:200])
+            if shown < 4:
+                shown += 1
+                rep.violation('compiling a pattern crashes, hangs or exhausts memory instead of returning an error: ' + what, {'pattern': pat, 'output': out[-600:], 'kind': 'extreme'})
+    os.remove(binp)
+    rep.coverage['extreme_patterns'] = {'patterns': len(pats), 'seconds': round(time.time() - t0, 1), 'limit_seconds': limit_s, 'limit_mib': limit_mb, **counts}
+    rep.assumptions.append('auxiliary, not solver-decided: %d boundary patterns (hexadecimal escapes at 0, 7F/80, FFFF/10000, 10FFFF/110000, 7FFFFFFF/80000000, FFFFFFFF alone, in groups and as range ends; large repetition counts) each compiled natively in its own process under a %d s / %d MiB limit' % (len(pats), limit_s, limit_mb))
 
 
 def run(tier, rep):
@@ -54,6 +120,8 @@ def run(tier, rep):
                                 init_pkgs=[c09.PKG, MODULE + '/internal/regex/parser', MODULE + '/internal/verif', 'github.com/moorara/algo/...', 'io']), sc, 'pattern', timeout=4 * 3600)
         merge_gosym(rep, res, '(c) nfa.Parse and ToDFA with the real automata library on every string of <= %d bytes in 0x01..0x7F and the empty string' % NP)
         c09.handle(rep, res, fs, sc, prop='C14')
+        # (d) boundary members of the documented escape forms, each in a process of its own under a time and memory limit
+        extremes(rep, sc)
         # (e)
         c16.run_part(rep, sc, tier)
         rep.assumptions += [
